@@ -21,11 +21,11 @@ RULE = ('random prior rankings over 1-4 atoms (also all-zero) x 1-4 revision con
 ASSUMPTIONS = ['existence of parameters when None is returned is decided inside the box {0..3}^k (k free parameters, k <= 6)',
                'a free gamma+ that does not occur in the returned dict is read as 0 (it is unconstrained)']
 TRUSTED = []
-FLOOR = {'quick': 1200, 'thorough': 12000}
+FLOOR = {'quick': 400, 'thorough': 4000}
 BUDGET = {'quick': 110, 'thorough': 1500}
 N = {'quick': 4000, 'thorough': 40000}
-REQUIRED = {'quick': {'revisions_returning_parameters': 300, 'revisions_returning_none': 30, 'compilations_compared': 300,
-                      'history_steps': 500, 'pareto_minimality_checked': 80},
+REQUIRED = {'quick': {'revisions_returning_parameters': 120, 'revisions_returning_none': 30, 'compilations_compared': 300,
+                      'history_steps': 500, 'pareto_minimality_checked': 40},
             'thorough': {'revisions_returning_parameters': 3000, 'revisions_returning_none': 300,
                          'compilations_compared': 3000, 'history_steps': 5000, 'pareto_minimality_checked': 800}}
 RECYCLE = 80
